@@ -131,10 +131,7 @@ class Builder:
                         ht.decl = hd
                         ht.lowerer_cls = tgt.lowerer_cls
                         ht.more_sources = list(getattr(tgt, 'more_sources', []))
-                        ht.no_auto_callees = True
-                        helpers.append('static ' + self.lower(ht))
-                        self.helper_texts = getattr(self, 'helper_texts', {})
-                        self.helper_texts[hc] = helpers[-1]
+                        helpers.append(self._lower_helper(ht, hc))
                         self.profile.calls['%s::%s/%d' % (hcls, hname, hn)] = ('calleeret' if self.last.ret_class else 'callee', hc)
                         self.auto_callees = getattr(self, 'auto_callees', []) + [{'function': hcls + '::' + hname, 'for': tgt.cname}]
                         lw = tgt.lowerer_cls(d, tgt.cname, self.profile, this_type=tgt.this)
@@ -152,10 +149,7 @@ class Builder:
                     ht.decl = hd
                     ht.lowerer_cls = tgt.lowerer_cls
                     ht.more_sources = list(getattr(tgt, 'more_sources', []))
-                    ht.no_auto_callees = True
-                    helpers.append('static ' + self.lower(ht))
-                    self.helper_texts = getattr(self, 'helper_texts', {})
-                    self.helper_texts[hc] = helpers[-1]
+                    helpers.append(self._lower_helper(ht, hc))
                     self.profile.calls['fn:%s/%d' % (hname, hn)] = ('calleeret' if self.last.ret_class else 'callee', hc)
                     self.auto_callees = getattr(self, 'auto_callees', []) + [{'function': hname, 'for': tgt.cname}]
                     lw = tgt.lowerer_cls(d, tgt.cname, self.profile, this_type=tgt.this)
@@ -196,6 +190,26 @@ class Builder:
         if helpers:
             text = '\n'.join(helpers) + '\n/*@END-HELPERS@*/\n' + text
         return text
+
+    def _lower_helper(self, ht, hc):
+        """lowered text of an auto-lowered helper, preceded by the helpers it calls itself (nesting is bounded by the
+        attempt counter of lower()); every single function text is remembered so that a TU keeps one copy of each"""
+        depth = getattr(self, '_helper_depth', 0)
+        if depth >= 4:
+            raise Unsupported('helper functions nested deeper than 4')
+        self._helper_depth = depth + 1
+        try:
+            t = self.lower(ht)
+        finally:
+            self._helper_depth = depth
+        pre, body = t.split('/*@END-HELPERS@*/\n', 1) if '/*@END-HELPERS@*/\n' in t else ('', t)
+        own = 'static ' + body
+        self.helper_units = getattr(self, 'helper_units', [])
+        if own not in self.helper_units:
+            self.helper_units.append(own)
+        self.helper_texts = getattr(self, 'helper_texts', {})
+        self.helper_texts[hc] = pre + own
+        return self.helper_texts[hc]
 
     def prototype(self, text, keep_ensures=None):
         """declaration (signature + contract) of a lowered function, for callers that use it through its contract.
@@ -250,6 +264,11 @@ class Builder:
 
     def write(self, name, text):
         path = os.path.join(self.work, name)
+        # an auto-lowered helper travels with every function that calls it; a TU that holds several of those keeps one copy
+        for ht in getattr(self, 'helper_units', []):
+            i = text.find(ht)
+            if i >= 0:
+                text = text[:i + len(ht)] + text[i + len(ht):].replace(ht + '\n', '').replace(ht, '')
         with open(path, 'w') as f:
             f.write(text)
         return path
